@@ -16,6 +16,20 @@
 // expansion of the rule as written (which optional parts are present, which alternative, how many
 // list elements), what each recorded reference must print: the value / start / end of the symbol
 // it names, or nil / -1 when that symbol is not part of the expansion.
+//
+// Violation keys:
+//
+//	binding:<end|mid|parent>:<name|alias|index|first|last|lhs|nonterm>.<value|offset|endoffset>:<present|absent>
+//	    a recorded reference printed something else than the model says
+//	midrule-dedupe:wrong-stack-slot     a binding mismatch in a mid-rule action whose extracted
+//	    nonterminal is shared between places that differ by lookahead symbols only (diagnosed on the
+//	    compiled grammar after the mismatch was observed)
+//	adjacent-actions:generated-code-does-not-build, adjacent-actions:merged-code-resolved-in-later-scope
+//	    an expansion leaves two actions next to each other (the model predicts which grammars)
+//	first-last:internal-error-on-helper-symbol   first()/last() landing on an extracted action / lookahead
+//	records:*, parser:*, generate:*, build:*      the sentence could not be evaluated at all
+//
+// Grammars with LALR conflicts (an artefact of the enumeration) are skipped and counted.
 package main
 
 import (
@@ -688,12 +702,23 @@ func run(c *core.Ctx) {
 		}
 		return
 	}
-	// grammars that can put two actions next to each other go into batches of their own: the
+	// Grammars that can put two actions next to each other go into batches of their own: the
 	// generated code for those does not build at present (finding adjacent-actions), and one
-	// failing package costs a rebuild of the whole batch
-	// order: single rules of one item, then the basic pairs, then the rest (each simplest first),
-	// so that a run cut short by the budget has still seen every family
+	// failing package costs a rebuild of the whole batch.
+	// Order: single rules of one item, then the basic pairs, then the rest (each simplest first),
+	// so that a run cut short by the budget has still seen every family.
 	var order []*gspec
+	var cuts []int // batch boundaries that must be respected (indices into order)
+	// a tiny leading batch with the three simplest adjacency grammars, so that this family is seen
+	// even when the budget cuts the run short
+	lead := map[*gspec]bool{}
+	for _, g := range specs {
+		if g.adj && g.rank == 0 && len(lead) < 3 {
+			lead[g] = true
+			order = append(order, g)
+		}
+	}
+	cuts = append(cuts, len(order))
 	for rank := 0; rank <= 5; rank++ {
 		for _, g := range specs {
 			if !g.adj && g.rank == rank {
@@ -701,9 +726,9 @@ func run(c *core.Ctx) {
 			}
 		}
 	}
-	nPlain := len(order)
+	cuts = append(cuts, len(order))
 	for _, g := range specs {
-		if g.adj {
+		if g.adj && !lead[g] {
 			order = append(order, g)
 		}
 	}
@@ -716,8 +741,10 @@ func run(c *core.Ctx) {
 			break
 		}
 		end := min(start+batch, len(order))
-		if start < nPlain && end > nPlain {
-			end = nPlain
+		for _, cut := range cuts {
+			if start < cut && end > cut {
+				end = cut
+			}
 		}
 		var hs []genharness.Spec
 		for i := start; i < end; i++ {
